@@ -92,7 +92,9 @@ Definition check_exp_case (par negidt : bool) (P : fps) (alpha ea ch sh : cf) (n
   | PIState w =>
       (* cosh(a) psi + sinh(a) P psi is formed in floating point: when the two terms nearly cancel (an input close to an eigenvector,
          a large |Re a|) the absolute error scales with |cosh a| + |sinh a| times the input, i.e. with the norm of the operator *)
-      let opn := fmax 1 (fmax (abs (fst ch)) (abs (snd ch)) + fmax (abs (fst sh)) (abs (snd sh)))%float in
+      let opn := match pops P with
+                 | [] => fmax 1 (fmax (abs (fst ea)) (abs (snd ea)))          (* the empty string is one scalar multiplication by e^a: no cancellation *)
+                 | _ => fmax 1 (fmax (abs (fst ch)) (abs (snd ch)) + fmax (abs (fst sh)) (abs (snd sh))) end%float in
       let tol := (4 * amp_tol (v ++ w) * opn)%float in
       let spec := match ser with
                   | Some (c, s, e) => if keys_okb n (pops P) then exp_spec P (cfloat_of_fx e) (cfloat_of_fx c) (cfloat_of_fx s) n v else []
